@@ -190,6 +190,36 @@ pub proof fn lemma_skip_ascii(s: &str, k: int)
     axiom_boff_boundary(s, k);
     axiom_cidx_boff(s@, k);
 }
+/// char index of a byte offset inside a suffix slice: offsets add up
+pub proof fn lemma_cidx_suffix(s: &str, a: int, t: &str, r: int)
+    requires is_slice(s, a, s.spec_bytes().len() as int, t), slice_ok(s, a, s.spec_bytes().len() as int), 0 <= r <= t.spec_bytes().len(), is_char_boundary(t.spec_bytes(), r)
+    ensures cidx(s@, a + r) == cidx(s@, a) + cidx(t@, r), t@ == s@.subrange(cidx(s@, a), s@.len() as int), is_char_boundary(s.spec_bytes(), a + r), a + r <= s.spec_bytes().len(),
+            0 <= cidx(t@, r) <= t@.len(), 0 <= cidx(s@, a) <= s@.len()
+{
+    b_str_ends_boundary(s);
+    b_cidx_end(s);
+    axiom_slice_chars(s, a, s.spec_bytes().len() as int, t);
+    axiom_cidx(s, a);
+    axiom_cidx(t, r);
+    axiom_boundary_suffix(s, a, t, r);
+    let ca = cidx(s@, a);
+    let i = cidx(t@, r);
+    assert(s@.subrange(0, ca + i) =~= s@.subrange(0, ca) + t@.subrange(0, i));
+    lemma_encode_concat(s@.subrange(0, ca), t@.subrange(0, i));
+    assert(boff(s@, ca + i) == a + r);
+    axiom_cidx_boff(s@, ca + i);
+}
+/// the first occurrence of a pattern in a suffix slice, found at byte offset r of the slice, seen from the whole string
+pub proof fn lemma_suffix_find(s: &str, a: int, t: &str, r: int, pat: Seq<char>)
+    requires is_slice(s, a, s.spec_bytes().len() as int, t), slice_ok(s, a, s.spec_bytes().len() as int), 0 <= r <= t.spec_bytes().len(), is_char_boundary(t.spec_bytes(), r),
+             first_at(t@, pat, cidx(t@, r))
+    ensures cidx(s@, a + r) == cidx(s@, a) + first_idx(s@.subrange(cidx(s@, a), s@.len() as int), pat),
+            contains_seq(s@.subrange(cidx(s@, a), s@.len() as int), pat), is_char_boundary(s.spec_bytes(), a + r), a + r <= s.spec_bytes().len(),
+            t@ == s@.subrange(cidx(s@, a), s@.len() as int)
+{
+    lemma_cidx_suffix(s, a, t, r);
+    lemma_first_unique(t@, pat, cidx(t@, r));
+}
 pub broadcast group group_bounds { b_str_ends_boundary, b_cidx_end }
 /// index of the first occurrence (meaningful when there is one)
 pub open spec fn first_idx(s: Seq<char>, p: Seq<char>) -> int { choose|i: int| first_at(s, p, i) }
